@@ -14,7 +14,12 @@ use crate::report::{pats_from_json, pats_json, pats_show, Ctx, Report, Tier};
 use crate::sem::guard;
 use crate::util::{hex, show, unhex, Fnv, Rng, J};
 
-pub const APIS: [&str; 21] = [
+/// The 21 public entry points, plus two *histories*: a stepwise overlapping
+/// call on an OverlappingState that an earlier (accepted) call has already
+/// advanced. Every call is a request of its own, so the predicate is the same.
+pub const APIS: [&str; 23] = [
+    "find_overlapping@resumed",
+    "try_find_overlapping@resumed",
     "is_match",
     "find",
     "find_overlapping",
@@ -59,6 +64,7 @@ impl Out {
 }
 
 fn takes_input(api: &str) -> bool {
+    let api = api.trim_end_matches("@resumed");
     matches!(
         api.trim_start_matches("try_"),
         "is_match" | "find" | "find_overlapping" | "find_iter" | "find_overlapping_iter"
@@ -77,6 +83,7 @@ pub fn should_reject(
     anchored: bool,
     has_empty: bool,
 ) -> bool {
+    let api = api.trim_end_matches("@resumed");
     let base = api.trim_start_matches("try_");
     let anchored = if takes_input(api) { anchored } else { false };
     // (a) anchoring mode not covered by the start kind
@@ -134,6 +141,24 @@ pub fn classify(
                 let mut st = OverlappingState::start();
                 ac.find_overlapping(input(), &mut st);
                 Ok(())
+            }
+            "find_overlapping@resumed" | "try_find_overlapping@resumed" => {
+                // advance the state with whatever anchoring the searcher
+                // accepts (errors of these warm-up calls are ignored), then
+                // issue the request under test on the same state
+                let mut st = OverlappingState::start();
+                for warm in [false, true] {
+                    let w = Input::new(hay).span(span.0..span.1).anchored(anch(warm));
+                    let _ = ac.try_find_overlapping(w, &mut st);
+                    let w = Input::new(hay).span(span.0..span.1).anchored(anch(warm));
+                    let _ = ac.try_find_overlapping(w, &mut st);
+                }
+                if api.starts_with("try_") {
+                    ac.try_find_overlapping(input(), &mut st).map_err(|e| e.to_string())
+                } else {
+                    ac.find_overlapping(input(), &mut st);
+                    Ok(())
+                }
             }
             "find_iter" => {
                 let it = ac.find_iter(input());
